@@ -29,6 +29,7 @@ import GoProbeModel.Spec.C25
 import GoProbeModel.Spec.C10
 import GoProbeModel.Spec.C29
 import GoProbeModel.Spec.C11
+import GoProbeModel.Spec.C06
 
 /-!
 `gpjudge`: executable specs. Reads lines `<Cxx> <case fields…> => <implementation output>` and
@@ -65,5 +66,6 @@ def main : IO Unit := DriverLoop.runJudge [
   ("C25", C25.judge),
   ("C10", C10.judge),
   ("C29", C29.judge),
-  ("C11", C11.judge)
+  ("C11", C11.judge),
+  ("C06", C06.judge)
 ]
